@@ -735,6 +735,15 @@ func (w *Writer) OpenStream(ref Reference, dict Dict, filters ...Filter) (io.Wri
 	}
 	w.w.ref = ref
 
+	// If one of the steps below fails, no stream is written: the entry must
+	// not stay behind, or it would point at whatever is written next.
+	opened := false
+	defer func() {
+		if !opened {
+			delete(w.xref, ref.Number())
+		}
+	}()
+
 	// Copy dict so that we don't modify the caller's dict, and inline any
 	// indirect /Filter or /DecodeParms entries.  Inlining serves two
 	// purposes: it gives appendFilter direct Name/Array values to extend
@@ -814,6 +823,7 @@ func (w *Writer) OpenStream(ref Reference, dict Dict, filters ...Filter) (io.Wri
 	}
 
 	w.inStream = true
+	opened = true
 	return streamBody, nil
 }
 
